@@ -36,7 +36,11 @@ EXERCISED = (
     "maximum set-point coincide; names containing line feeds, tabs and blanks; subscribers that "
     "end with CancelledError or TimeoutError; a second client receiving while the first one's "
     "frame is incomplete; a second init() after one that gave up; unregistered message ids "
-    "through send_with_header()")
+    "through send_with_header(); python -O; asyncio debug mode; another task reading every "
+    "public attribute at any moment, also during init(); strings that are equal but not "
+    "identical to the library's literals; a console that is slow to read while several tasks "
+    "send; frames longer than a kilobyte; a console that refuses the reconnection after a "
+    "heartbeat reset")
 
 T = """You are helping to evaluate a verification harness by producing a *subtle, realistic regression* in a Python library.
 
